@@ -1,5 +1,5 @@
 (* C06 - outbound QoS 1/2 publishes follow the MQTT handshake and report its outcome. *)
-From Poster Require Import Model.Sim Proofs.ClientP Proofs.HandshakeP Proofs.QuotaP Proofs.ResumeP Proofs.WireP Proofs.SimInvP Proofs.SettleP Proofs.RefineP Proofs.OwnP Proofs.OnceP.
+From Poster Require Import Model.Sim Proofs.ClientP Proofs.HandshakeP Proofs.QuotaP Proofs.ResumeP Proofs.WireP Proofs.SimInvP Proofs.SettleP Proofs.RefineP Proofs.OwnP Proofs.OnceP Proofs.RelOnceP.
 
 (* the first poll of publish(): one request reaches the context, carrying a PUBLISH whose first
    byte is 0x30 | qos<<1 | retain (DUP = 0), fire-and-forget for QoS 0, awaiting PUBACK (type 4)
@@ -160,3 +160,41 @@ Check (eq_refl : prank = fun s i => match alookup i (ops s) with
 Theorem C06_queue_survives_set_up : forall s : sys, msgq (fst (step s EReconnect)) = msgq s.
 Proof. intros s. reflexivity. Qed.
 Print Assumptions C06_queue_survives_set_up.
+
+(* ---- the handle side over every history, counted: the PUBREL request of one publish() -----------------------------------------
+   Requests reach the Context only through the queue, and only polls of operation futures append to it (`new_reqs`: what the
+   poll of the event appended). `is_rel i` recognises the second-phase request of operation i. From ANY state satisfying the
+   reachable-state invariant, over ANY events that do not start the label anew: operation i's future appends at most ONE
+   PUBREL request in the whole history; none at all once it has left its first wait (a failing PUBREC, an error, a finished
+   or dropped future); and each one is appended by a poll of i's own future, which is a publish with QoS other than 1 waiting
+   on its first oneshot, that oneshot holding a PUBREC with reason < 0x80, and it is exactly the PUBREL for that PUBREC's
+   identifier. *)
+Theorem C06_pubrel_request_once : forall (evs : list event) (s : sys) (i : N), OI s -> Forall (no_restart i) evs ->
+  (rels i (all_reqs s evs) <= 1)%nat.
+Proof. exact pubrel_le_one. Qed.
+Print Assumptions C06_pubrel_request_once.
+Theorem C06_no_pubrel_request_later : forall (evs : list event) (s : sys) (i : N), OI s -> Forall (no_restart i) evs ->
+  (2 <= prank s i)%nat -> rels i (all_reqs s evs) = 0%nat.
+Proof. exact pubrel_none_after. Qed.
+Print Assumptions C06_no_pubrel_request_later.
+Theorem C06_pubrel_request_from_pubrec : forall (s : sys) (e : event) (i : N) (m : cmsg),
+  In m (new_reqs s e) -> is_rel i m = true ->
+  exists j, e = EPoll j /\ j = i /\ exists o po p, alookup i (ops (begin_ev s)) = Some o /\ o_phase o = Wait1 /\ o_kind o = OPub po /\
+    (po_qos po =? 1) = false /\ o_ch1 o = CFull (CPkt p) /\ rk p = KPubrec /\ (128 <=? r_reason p) = false /\
+    m = MAwait i 2 (aid 7 (r_pid p)) (enc_pubrel (r_pid p)).
+Proof. exact new_reqs_spec. Qed.
+Print Assumptions C06_pubrel_request_from_pubrec.
+Check (eq_refl : new_reqs = fun s e => match e with
+  | EPoll j => skipn (length (msgq s)) (msgq (fst (poll_op (begin_ev s) j))) | _ => [] end).
+Check (eq_refl : is_rel = fun i m => match m with MAwait k ph _ _ => (k =? i) && (ph =? 2) | _ => false end).
+Check (eq_refl : all_reqs = fix all_reqs (s : sys) (evs : list event) : list cmsg :=
+  match evs with [] => [] | e :: r => new_reqs s e ++ all_reqs (fst (step s e)) r end).
+(* non-vacuity: a QoS 2 publish whose PUBREC (reason 0) has arrived appends exactly one PUBREL request when polled *)
+Example C06_pubrel_request_happens :
+  let pre := [EConnect (Build_connect_opts [99] 0 None None None None None None None None [] 0 false false
+                          None None None None None None [] None None None None);
+              EDeliver [32; 3; 0; 0; 0]; ERun;
+              EStart 0 0 (OPub (Build_publish_opts 2 false (Some [116]) None None None None None None None []))] in
+  let evs := [EPoll 0; EDeliver [80; 2; 0; 1]; EPoll 0; EPoll 0; EDeliver [80; 2; 0; 1]; EPoll 0] in
+  Forall (no_restart 0) evs /\ rels 0 (all_reqs (final_state sys_init pre) evs) = 1%nat.
+Proof. split; [repeat constructor|vm_compute; reflexivity]. Qed.
